@@ -496,13 +496,16 @@ def _loop_body_open(m, body_from, nth):
     raise ExtractError('loop #%d not found' % nth)
 
 
-def build_item(src, spec, idx, log):
+def build_item(src, spec, idx, log, degrade=False):
     """-> list[GenLine] for one //@item"""
     it = src.resolve(spec.path)
     text = src.item_text(it)
     what = '%s :: %s' % (spec.crate, spec.path)
     # 1. catalogued rewrites
-    text = rewrite.apply(text, spec.rules, what, log)
+    text = rewrite.apply(text, spec.rules, what, log, lenient=degrade)
+
+    def lost(msg):
+        log.setdefault('degraded', {}).setdefault(what, []).append(msg)
     # 1b. RA: undo renamings of locals / parameters (hints and contracts are written with the old names)
     if log.get('_base_out') is not None:
         log['_base_out'][what] = [t for t, _, _ in _tokens(mask(text))]
@@ -522,6 +525,9 @@ def build_item(src, spec, idx, log):
             if cnt:
                 text = text.replace(frm, to)
                 log['subs'].append({'item': what, 'from': frm, 'to': to, 'count': cnt})
+            continue
+        if cnt == 0 and degrade:
+            lost('//@sub "%s" not applied (text gone)' % frm[:60])
             continue
         if cnt == 0:
             raise ExtractError('//@sub anchor lost in %s (template line %d): "%s"' % (what, tline, frm))
@@ -583,111 +589,119 @@ def build_item(src, spec, idx, log):
         blocks[b[0]].append(b)
     header_override = None
     for kind, arg, lines, tline in spec.blocks:
-        okey = (kind, arg, tline)
-        if kind == 'spec':
-            if hdr_end is None:
-                raise ExtractError('//@spec on item without body: %s' % what)
-            inserts.append((hdr_end, lines, okey))
-        elif kind == 'loop':
-            if hdr_end is None:
-                raise ExtractError('//@loop on item without body: %s' % what)
-            pos = _loop_body_open(m, hdr_end, int(arg))
-            inserts.append((pos, lines, okey))
-        elif kind == 'before':
-            a = _find_anchor(text, m, arg, what)
-            ls = text.rfind('\n', 0, a) + 1
-            if text[ls:a].strip() == '' and (hdr_end is None or ls > hdr_end):
-                inserts.append((ls, lines, okey))
-            else:
-                inserts.append((a, [''] + lines, okey))
-        elif kind == 'after':
-            a = _find_anchor(text, m, arg, what)
-            j = a
-            depth = 0
-            while True:
-                if j >= len(m):
-                    raise ExtractError('//@after: statement end not found for %s in %s' % (arg, what))
-                c = m[j]
-                if c in '([{':
-                    depth += 1
-                elif c in ')]}':
-                    if depth == 0:
-                        raise ExtractError('//@after: anchor %s is in a tail expression in %s' % (arg, what))
-                    depth -= 1
-                    if depth == 0 and c == '}':
-                        # block-like statement (if/match/while) ends here unless followed by ; or an operator
-                        k = j + 1
-                        while k < len(m) and m[k] in ' \t':
-                            k += 1
-                        if k < len(m) and m[k] == '\n':
-                            k2 = k
-                            while k2 < len(m) and m[k2].isspace():
-                                k2 += 1
-                            if not (m.startswith('else', k2) or m[k2] in '.?;'):
-                                j = j + 1
-                                break
-                elif c == ';' and depth == 0:
+        try:
+            okey = (kind, arg, tline)
+            if kind == 'spec':
+                if hdr_end is None:
+                    raise ExtractError('//@spec on item without body: %s' % what)
+                inserts.append((hdr_end, lines, okey))
+            elif kind == 'loop':
+                if hdr_end is None:
+                    raise ExtractError('//@loop on item without body: %s' % what)
+                pos = _loop_body_open(m, hdr_end, int(arg))
+                inserts.append((pos, lines, okey))
+            elif kind == 'before':
+                a = _find_anchor(text, m, arg, what)
+                ls = text.rfind('\n', 0, a) + 1
+                if text[ls:a].strip() == '' and (hdr_end is None or ls > hdr_end):
+                    inserts.append((ls, lines, okey))
+                else:
+                    inserts.append((a, [''] + lines, okey))
+            elif kind == 'after':
+                a = _find_anchor(text, m, arg, what)
+                j = a
+                depth = 0
+                while True:
+                    if j >= len(m):
+                        raise ExtractError('//@after: statement end not found for %s in %s' % (arg, what))
+                    c = m[j]
+                    if c in '([{':
+                        depth += 1
+                    elif c in ')]}':
+                        if depth == 0:
+                            raise ExtractError('//@after: anchor %s is in a tail expression in %s' % (arg, what))
+                        depth -= 1
+                        if depth == 0 and c == '}':
+                            # block-like statement (if/match/while) ends here unless followed by ; or an operator
+                            k = j + 1
+                            while k < len(m) and m[k] in ' \t':
+                                k += 1
+                            if k < len(m) and m[k] == '\n':
+                                k2 = k
+                                while k2 < len(m) and m[k2].isspace():
+                                    k2 += 1
+                                if not (m.startswith('else', k2) or m[k2] in '.?;'):
+                                    j = j + 1
+                                    break
+                    elif c == ';' and depth == 0:
+                        j += 1
+                        break
                     j += 1
-                    break
-                j += 1
-            inserts.append((j, [''] + lines, okey))
-        elif kind == 'stmt':
-            # before the statement whose (first) line contains the anchor
-            a = _find_anchor(text, m, arg, what)
-            ls = text.rfind('\n', 0, a) + 1
-            k = ls - 1
-            while k >= 0 and m[k].isspace():
-                k -= 1
-            if k >= 0 and m[k] not in ';{}':
-                raise ExtractError('//@stmt: anchor %s is not on the first line of a statement in %s' % (arg, what))
-            inserts.append((ls, lines, okey))
-        elif kind == 'at':
-            a, a_end = _find_anchor(text, m, arg, what, span=True)
-            inserts.append((a_end, [''] + lines, okey))
-        elif kind == 'head':
-            inserts.append((hdr_end + 1, [''] + lines, okey))
-        elif kind == 'loopstart':
-            pos = _loop_body_open(m, hdr_end, int(arg))
-            inserts.append((pos + 1, [''] + lines, ('loopstart', arg, tline)))
-        elif kind == 'loopend':
-            pos = match_close(m, _loop_body_open(m, hdr_end, int(arg)))
-            inserts.append((pos, [''] + lines, ('loopend', arg, tline)))
-        elif kind == 'tail':
-            # before the tail expression of the fn body (or at its end if there is none)
-            close = match_close(m, hdr_end)
-            j = hdr_end + 1
-            last = hdr_end + 1
-            depth = 0
-            while j < close:
-                c = m[j]
-                if c in '([{':
-                    depth += 1
-                elif c in ')]}':
-                    depth -= 1
-                    if depth == 0 and c == '}':
-                        # block statement end unless followed by an operator / method call / else
-                        k = j + 1
-                        while k < close and m[k].isspace():
-                            k += 1
-                        if not (m.startswith('else', k) or (k < close and m[k] in '.?')):
-                            last = j + 1
-                elif c == ';' and depth == 0:
-                    last = j + 1
-                j += 1
-            if m[last:close].strip() == '':
-                inserts.append((close, [''] + lines, okey))
-            else:
-                k = last
-                while m[k].isspace():
-                    k += 1
-                ls = text.rfind('\n', 0, k) + 1
-                inserts.append((ls if text[ls:k].strip() == '' else k, lines if text[ls:k].strip() == '' else [''] + lines, okey))
-        elif kind == 'sig':
-            header_override = (lines, okey)
-        elif kind == 'prefix':
-            pass
-        elif kind == 'closure':
-            pass   # handled before the other splices (changes the text)
+                inserts.append((j, [''] + lines, okey))
+            elif kind == 'stmt':
+                # before the statement whose (first) line contains the anchor
+                a = _find_anchor(text, m, arg, what)
+                ls = text.rfind('\n', 0, a) + 1
+                k = ls - 1
+                while k >= 0 and m[k].isspace():
+                    k -= 1
+                if k >= 0 and m[k] not in ';{}':
+                    raise ExtractError('//@stmt: anchor %s is not on the first line of a statement in %s' % (arg, what))
+                inserts.append((ls, lines, okey))
+            elif kind == 'at':
+                a, a_end = _find_anchor(text, m, arg, what, span=True)
+                inserts.append((a_end, [''] + lines, okey))
+            elif kind == 'head':
+                inserts.append((hdr_end + 1, [''] + lines, okey))
+            elif kind == 'loopstart':
+                pos = _loop_body_open(m, hdr_end, int(arg))
+                inserts.append((pos + 1, [''] + lines, ('loopstart', arg, tline)))
+            elif kind == 'loopend':
+                pos = match_close(m, _loop_body_open(m, hdr_end, int(arg)))
+                inserts.append((pos, [''] + lines, ('loopend', arg, tline)))
+            elif kind == 'tail':
+                # before the tail expression of the fn body (or at its end if there is none)
+                close = match_close(m, hdr_end)
+                j = hdr_end + 1
+                last = hdr_end + 1
+                depth = 0
+                while j < close:
+                    c = m[j]
+                    if c in '([{':
+                        depth += 1
+                    elif c in ')]}':
+                        depth -= 1
+                        if depth == 0 and c == '}':
+                            # block statement end unless followed by an operator / method call / else
+                            k = j + 1
+                            while k < close and m[k].isspace():
+                                k += 1
+                            if not (m.startswith('else', k) or (k < close and m[k] in '.?')):
+                                last = j + 1
+                    elif c == ';' and depth == 0:
+                        last = j + 1
+                    j += 1
+                if m[last:close].strip() == '':
+                    inserts.append((close, [''] + lines, okey))
+                else:
+                    k = last
+                    while m[k].isspace():
+                        k += 1
+                    ls = text.rfind('\n', 0, k) + 1
+                    inserts.append((ls if text[ls:k].strip() == '' else k, lines if text[ls:k].strip() == '' else [''] + lines, okey))
+            elif kind == 'sig':
+                header_override = (lines, okey)
+            elif kind == 'prefix':
+                pass
+            elif kind == 'closure':
+                pass   # handled before the other splices (changes the text)
+        except ExtractError as e:
+            # degraded mode: a proof hint whose place is gone is left out (the function is then verified without it and a
+            # failure of that function counts as undecided, see engine); contracts (//@spec) are never dropped
+            if degrade and kind in ('before', 'after', 'stmt', 'at', 'loop', 'loopstart', 'loopend', 'tail', 'head'):
+                lost('hint block //@%s %s not placed: %s' % (kind, arg[:50], str(e)[:120]))
+                continue
+            raise
     # apply inserts back to front, with markers
     inserts.sort(key=lambda x: x[0], reverse=True)
     for pos, lines, okey in inserts:
@@ -919,7 +933,24 @@ def build_unit(name, template_text, sources, read_template=None):
             spec = p[1]
             if spec.crate not in sources:
                 raise ExtractError('unknown crate %s (template line %d)' % (spec.crate, spec.tline))
-            gl, it = build_item(sources[spec.crate], spec, idx, log)
+            n_rw, n_sb = len(log['rewrites']), len(log['subs'])
+            try:
+                gl, it = build_item(sources[spec.crate], spec, idx, log)
+            except ExtractError as e0:
+                # degraded mode: the item is extracted without the proof hints / optional rewrites whose place is gone; the engine
+                # then accepts "verified" for it (fewer hints can only make a proof harder) and reports anything else as undecided
+                del log['rewrites'][n_rw:]
+                del log['subs'][n_sb:]
+                what0 = '%s :: %s' % (spec.crate, spec.path)
+                try:
+                    gl, it = build_item(sources[spec.crate], spec, idx, log, degrade=True)
+                except ExtractError:
+                    log.get('degraded', {}).pop(what0, None)
+                    raise e0
+                if not log.get('degraded', {}).get(what0):
+                    raise e0
+                log['rewrites'].append({'rule': 'DEGRADED', 'item': what0, 'count': len(log['degraded'][what0]),
+                                        'note': 'extracted without: ' + '; '.join(log['degraded'][what0])[:400]})
             first = len(lines) + 1
             lines.extend(gl)
             items.append((spec, it, first, len(lines)))
